@@ -42,3 +42,17 @@ def add_results(rep, results, stage):
         rep.add_case(case.key(), out.nontrivial, out.classes, case.summary() if len(rep.samples) < 8 else None)
         for clause, detail in out.failures:
             rep.add_failure('%s: %s' % (stage, clause), detail, case.to_json(), stage=stage)
+
+
+def run_boundary(rep, tier, check_fn, only=None, wrap=None):
+    """the hand-laid-out messages at the numeric limits of the format (gen.messages.boundary_cases) through a check's
+    own oracle; wrap(case) -> iterable of the check's case objects"""
+    from gen import messages as gmsg
+    for name, case in gmsg.boundary_cases(tier):
+        if only is not None and not any(name.startswith(x) for x in only):
+            continue
+        for c in (wrap(case) if wrap else [case]):
+            out = check_fn(c)
+            rep.add_case('boundary:' + name + ':' + c.key(), True, ['boundary_' + name], None)
+            for clause, detail in out.failures:
+                rep.add_failure('format limits (%s): %s' % (name, clause), detail, c.to_json(), stage='format limits')
